@@ -282,4 +282,108 @@ Section Checker.
     - destruct (check_pstep K V cmp eqv eqe P o r) as [P'|] eqn:Hc; [|discriminate].
       intros H. apply A_cons with (P' := P'); [now apply check_pstep_sound | now apply IH].
   Qed.
+
+  (** ** … and it accepts every trace the specification allows (no false alarm), whatever
+      order the entries of the bags are listed in *)
+  Hypothesis eqe_refl : forall a, eqe a a = true.
+
+  Lemma existsb_perm {A} (f : A -> bool) l l' : Permutation l l' -> existsb f l = existsb f l'.
+  Proof.
+    induction 1; simpl; auto.
+    - now rewrite IHPermutation.
+    - destruct (f x), (f y); reflexivity.
+    - congruence.
+  Qed.
+
+  Lemma remove1_in e B : In e B -> exists B', remove1 K V eqe e B = Some B'.
+  Proof.
+    induction B as [|x B IH]; simpl; [tauto|]. intros [->|Hin].
+    - rewrite eqe_refl. eauto.
+    - destruct (eqe e x); [eauto|]. destruct (IH Hin) as [B' ->]. eauto.
+  Qed.
+
+  Lemma remove1_complete e B B' :
+    Permutation B (e :: B') -> exists B'', remove1 K V eqe e B = Some B'' /\ Permutation B' B''.
+  Proof.
+    intros Hp. assert (Hin : In e B) by (eapply Permutation_in; [symmetry; exact Hp | now left]).
+    destruct (remove1_in e B Hin) as [B'' Hr]. exists B''. split; [exact Hr|].
+    apply remove1_perm in Hr. apply Permutation_cons_inv with (a := e).
+    now rewrite <- Hp, <- Hr.
+  Qed.
+
+  Lemma is_extremal_complete k B : extremal K V cmp k B -> is_extremal K V cmp k B = true.
+  Proof.
+    intros H. unfold is_extremal. apply forallb_forall. intros e He. apply Z.leb_le. now apply H.
+  Qed.
+
+  Lemma extremal_perm k B B1 : Permutation B B1 -> extremal K V cmp k B -> extremal K V cmp k B1.
+  Proof. intros Hp H e He. apply H. eapply Permutation_in; [symmetry; exact Hp | exact He]. Qed.
+
+  Lemma check_step_complete B a r B' B1 :
+    spec_step K V cmp eqv B a r B' -> Permutation B B1 ->
+    exists B1', check_step K V cmp eqv eqe B1 a r = Some B1' /\ Permutation B' B1'.
+  Proof.
+    intros Hs Hp. inversion Hs; subst; simpl.
+    - eexists. split; [reflexivity|]. rewrite H. now apply perm_skip.
+    - apply Permutation_nil in Hp. subst. eauto.
+    - rewrite (is_extremal_complete _ _ (extremal_perm _ _ _ Hp H0)).
+      apply remove1_complete. now rewrite <- Hp.
+    - apply Permutation_nil in Hp. subst. eauto.
+    - rewrite (is_extremal_complete _ _ (extremal_perm _ _ _ Hp H0)). simpl.
+      assert (Hex : existsb (eqe e) B1 = true).
+      { apply existsb_exists. exists e. split; [eapply Permutation_in; eassumption | apply eqe_refl]. }
+      rewrite Hex. eauto.
+    - eauto.
+    - rewrite (Permutation_length Hp), Nat.eqb_refl. eauto.
+    - rewrite (Permutation_length Hp), Bool.eqb_reflx. eauto.
+    - rewrite (existsb_perm _ _ _ Hp), Bool.eqb_reflx. eauto.
+    - rewrite (existsb_perm _ _ _ Hp), Bool.eqb_reflx. eauto.
+  Qed.
+
+  (** pools whose bags agree up to the order of their entries *)
+  Definition beq (x y : option (bag K V)) : Prop :=
+    match x, y with Some a, Some b => Permutation a b | None, None => True | _, _ => False end.
+  Definition peq (P P1 : spool K V) : Prop := Forall2 beq P P1.
+
+  Lemma peq_nth P P1 i B : peq P P1 -> nth_error P i = Some (Some B) ->
+    exists B1, nth_error P1 i = Some (Some B1) /\ Permutation B B1.
+  Proof.
+    intros H. revert i. induction H as [|x y P P1 Hxy _ IH]; intros i Hi.
+    - destruct i; discriminate.
+    - destruct i; simpl in *.
+      + injection Hi as ->. destruct y as [b|]; simpl in Hxy; [eauto | tauto].
+      + auto.
+  Qed.
+
+  Lemma peq_upd P P1 i x y : peq P P1 -> beq x y -> peq (upd P i x) (upd P1 i y).
+  Proof.
+    intros H. revert i. induction H as [|a b P P1 Hab HP IH]; intros i Hxy; destruct i; simpl; try constructor; auto.
+    apply IH. exact Hxy.
+  Qed.
+
+  Lemma peq_refl P : peq P P.
+  Proof. induction P as [|[b|] P IH]; constructor; simpl; auto. Qed.
+
+  Lemma check_pstep_complete P o r P' P1 :
+    pspec_step K V cmp eqv P o r P' -> peq P P1 ->
+    exists P1', check_pstep K V cmp eqv eqe P1 o r = Some P1' /\ peq P' P1'.
+  Proof.
+    intros Hs Hp. inversion Hs; subst; unfold check_pstep.
+    - destruct (peq_nth _ _ _ _ Hp H) as (B1 & -> & HB).
+      destruct (check_step_complete _ _ _ _ _ H0 HB) as (B1' & Hc & HB').
+      assert (Hnm : match a with Merge _ => False | _ => True end) by (inversion H0; exact I).
+      destruct a; try tauto; rewrite Hc; eexists; (split; [reflexivity | apply peq_upd; assumption]).
+    - destruct (peq_nth _ _ _ _ Hp H0) as (Bi1 & -> & HBi).
+      destruct (peq_nth _ _ _ _ Hp H1) as (Bj1 & -> & HBj).
+      apply Nat.eqb_neq in H. rewrite H.
+      eexists. split; [reflexivity|]. apply peq_upd; [apply peq_upd; [assumption|] | exact I].
+      simpl. rewrite H2. now apply Permutation_app.
+  Qed.
+
+  Theorem check_trace_complete P ops outs :
+    accepts K V cmp eqv P ops outs -> forall P1, peq P P1 -> check_trace K V cmp eqv eqe P1 ops outs = true.
+  Proof.
+    induction 1 as [|P o r P' ops outs Hstep _ IH]; intros P1 Hp; simpl; [reflexivity|].
+    destruct (check_pstep_complete _ _ _ _ _ Hstep Hp) as (P1' & -> & Hp'). now apply IH.
+  Qed.
 End Checker.
